@@ -20,7 +20,8 @@ RULE = ('2-4 contenders (threads sharing one Cache, threads with their own Cache
         'schedules in which a contender was preempted while holding')
 DISTINCT = ('schedules_preempted_while_holding', 'process_runs')
 REQUIRED = ('schedules_lock', 'schedules_rlock', 'schedules_semaphore', 'schedules_barrier', 'critical_sections',
-            'contended_acquires', 'nested_acquires', 'refused_releases', 'process_runs_done', 'fanout_schedules')
+            'contended_acquires', 'nested_acquires', 'refused_releases', 'process_runs_done', 'fanout_schedules',
+            'fork_runs_done')
 ASSUMPTIONS = ('witness intervals lie strictly inside the claimed hold period, so an overlap is a proof and clock '
                'granularity can only hide one', 'expire is not used on the locks (an expiring lock frees by design)')
 
@@ -264,6 +265,102 @@ def process_run(dc, sc, res, rng, seed, label):
             return
 
 
+def fork_run(dc, sc, res, rng, label):
+    """The lock object (and a barrier-wrapped function) is built in the parent and used by forked children: exclusion
+    must hold between the parent and its children and among the children."""
+    import time as _t
+    d = sc.new()
+    wit = d + '-witness'
+    kind = rng.choice(['lock', 'rlock', 'semaphore', 'barrier-rlock'])
+    cache = dc.Cache(d, timeout=60)
+    lock = {'lock': lambda: dc.Lock(cache, 'L'), 'rlock': lambda: dc.RLock(cache, 'L'),
+            'semaphore': lambda: dc.BoundedSemaphore(cache, 'L', value=1),
+            'barrier-rlock': lambda: dc.RLock(cache, 'L')}[kind]()
+
+    def section(out):
+        t0 = _t.monotonic_ns()
+        clash = False
+        try:
+            os.mkdir(wit)
+        except FileExistsError:
+            clash = True
+        _t.sleep(0.002)
+        if not clash:
+            os.rmdir(wit)
+        out.append([t0, _t.monotonic_ns(), clash])
+
+    wrapped = dc.barrier(cache, dc.RLock, name='B')(section) if kind == 'barrier-rlock' else None
+
+    def loop(rounds, out):
+        for _ in range(rounds):
+            if wrapped is not None:
+                wrapped(out)
+            else:
+                lock.acquire()
+                try:
+                    section(out)
+                finally:
+                    lock.release()
+    # the parent holds the lock while the children start
+    if wrapped is None:
+        lock.acquire()
+    pids, files = [], []
+    for ci in range(rng.randrange(2, 4)):
+        path = '%s.child%d' % (d, ci)
+        files.append(path)
+        pid = os.fork()
+        if pid == 0:
+            code = 0
+            try:
+                out = []
+                loop(6, out)
+                with open(path, 'w') as f:
+                    json.dump(out, f)
+            except BaseException:      # noqa: BLE001
+                import traceback
+                traceback.print_exc()
+                code = 3
+            os._exit(code)
+        pids.append(pid)
+    mine = []
+    if wrapped is None:
+        section(mine)            # still inside the hold period taken before the fork
+        _t.sleep(0.02)
+        lock.release()
+    loop(4, mine)
+    ok = True
+    for pid in pids:
+        _, status = os.waitpid(pid, 0)
+        ok &= status == 0
+    cache.close()
+    ivs = list(mine)
+    for path in files:
+        if os.path.exists(path):
+            ivs.extend(json.load(open(path)))
+            os.unlink(path)
+    sc.drop(d)
+    if os.path.isdir(wit):
+        os.rmdir(wit)
+    if not ok:
+        res.violation('a forked child using the inherited %s failed' % kind, {'label': label, 'kind': kind})
+        return
+    res.count('fork_runs_done')
+    res.count('evaluations')
+    res.seen('process_runs', (label, kind, 'fork'))
+    if any(c for _, _, c in ivs):
+        res.violation('witness directory existed on entry: a forked child and another process were inside the %s at once'
+                      % kind, {'label': label, 'kind': kind})
+        return
+    pts = sorted([(a, 1) for a, _, _ in ivs] + [(b, -1) for _, b, _ in ivs], key=lambda x: (x[0], x[1]))
+    cur = 0
+    for _, delta in pts:
+        cur += delta
+        if cur > 1:
+            res.violation('%d processes inside the %s at once (forked children share the lock object built by their parent)'
+                          % (cur, kind), {'label': label, 'kind': kind})
+            return
+
+
 def run_shard(tier, seed, shard, nshards, res):
     dc = common.use_repo()
     probe.install()
@@ -278,3 +375,4 @@ def run_shard(tier, seed, shard, nshards, res):
         for i in range(1 if tier == 'quick' else 6):
             rng = common.rng_for(seed, 'c15p', shard, i)
             process_run(dc, sc, res, rng, seed * 1000 + shard * 10 + i, 'c15 processes seed=%d shard=%d i=%d' % (seed, shard, i))
+            fork_run(dc, sc, res, rng, 'c15 fork seed=%d shard=%d i=%d' % (seed, shard, i))
